@@ -21,8 +21,8 @@ func init() {
 	core.Register(&core.Check{
 		ID: "C43", Level: "other", Title: "Wallet accounts round-trip and are password-protected",
 		Technique: "parameter pairing over all call sites of the key-encryption API (resolved callees), guard dominance, value identity",
-		Explain: "Structural necessary condition for 'saved accounts reload': a key encrypted with scrypt parameters P decrypts only with P, so every encryption and decryption of a wallet account key must take the SAME parameter source — the wallet's own (ClientImpl: this.walletData.Scrypt; WalletData: this.Scrypt; sigsvr WalletStore: this.WalletScrypt). Rule: in every method of these three types, each call of keypair.EncryptWithCustomScrypt / DecryptWithCustomScrypt / ReencryptPrivateKey passes exactly that field as the (old) scrypt argument, and no default-parameter variant (EncryptPrivateKey / DecryptPrivateKey) is called from them (call sites enumerated by resolved callee; the count is asserted). WalletData.reencrypt: every nil return passes a store to this.Scrypt whose value is the new parameter (or GetScryptParameters() on the nil branch), after all accounts were re-encrypted; WalletData.Scrypt is written only by reencrypt and at construction. NewAccount / NewAccountData: the address bound into the ciphertext is ToBase58(AddressFromPubKey(pub)) of the key pair generated in the same call, and the account is returned only after encryption and storing succeeded; getAccount / GetAccountByAddress return an account only after DecryptWithCustomScrypt err==nil, with PrivateKey the decrypted key and PublicKey/Address derived from it; ChangePassword decrypts with the old and encrypts with the new password under the same wallet parameters and the same address. NOT decided: the cryptography (wrong-password rejection is a property of ontology-crypto's authenticated encryption), JSON persistence of the file store.",
-		Run: runC43,
+		Explain:   "Structural necessary condition for 'saved accounts reload': a key encrypted with scrypt parameters P decrypts only with P, so every encryption and decryption of a wallet account key must take the SAME parameter source — the wallet's own (ClientImpl: this.walletData.Scrypt; WalletData: this.Scrypt; sigsvr WalletStore: this.WalletScrypt). Rule: in every method of these three types, each call of keypair.EncryptWithCustomScrypt / DecryptWithCustomScrypt / ReencryptPrivateKey passes exactly that field as the (old) scrypt argument, and no default-parameter variant (EncryptPrivateKey / DecryptPrivateKey) is called from them (call sites enumerated by resolved callee; the count is asserted). WalletData.reencrypt: every nil return passes a store to this.Scrypt whose value is the new parameter (or GetScryptParameters() on the nil branch), after all accounts were re-encrypted; WalletData.Scrypt is written only by reencrypt and at construction. NewAccount / NewAccountData: the address bound into the ciphertext is ToBase58(AddressFromPubKey(pub)) of the key pair generated in the same call, and the account is returned only after encryption and storing succeeded; getAccount / GetAccountByAddress return an account only after DecryptWithCustomScrypt err==nil, with PrivateKey the decrypted key and PublicKey/Address derived from it; ChangePassword decrypts with the old and encrypts with the new password under the same wallet parameters and the same address. NOT decided: the cryptography (wrong-password rejection is a property of ontology-crypto's authenticated encryption), JSON persistence of the file store.",
+		Run:       runC43,
 	})
 }
 
@@ -141,7 +141,10 @@ func runC43(c *core.Ctx) {
 		}
 		c.Decide(okAll, "C43.reencrypt", fn, "every nil return follows the parameter switch", c.P.Rel(fn.Pos()), "")
 		// new-parameter argument of Reencrypt is the param
-		for _, ci := range ir.Calls(fn, func(ci ssa.CallInstruction) bool { o := ir.CalleeObj(ci); return o != nil && o.Name() == "ReencryptPrivateKey" }) {
+		for _, ci := range ir.Calls(fn, func(ci ssa.CallInstruction) bool {
+			o := ir.CalleeObj(ci)
+			return o != nil && o.Name() == "ReencryptPrivateKey"
+		}) {
 			a := ci.Common().Args
 			c.Decide(ir.Strip(a[4]) == ssa.Value(fn.Params[2]) && sameValue(a[1], a[2]), "C43.reencrypt", fn, "re-encryption targets the new parameters with the unchanged password", c.P.Rel(ci.Pos()), "")
 		}
@@ -190,7 +193,10 @@ func runC43(c *core.Ctx) {
 		}
 		succ := nonNilParamSuccess(fn)
 		var enc *ssa.Call
-		for _, ci := range ir.Calls(fn, func(ci ssa.CallInstruction) bool { o := ir.CalleeObj(ci); return o != nil && o.Name() == "EncryptWithCustomScrypt" }) {
+		for _, ci := range ir.Calls(fn, func(ci ssa.CallInstruction) bool {
+			o := ir.CalleeObj(ci)
+			return o != nil && o.Name() == "EncryptWithCustomScrypt"
+		}) {
 			enc, _ = ci.(*ssa.Call)
 		}
 		if enc == nil {
@@ -238,7 +244,10 @@ func runC43(c *core.Ctx) {
 		}
 		succ := nonNilParamSuccess(fn)
 		var dec *ssa.Call
-		for _, ci := range ir.Calls(fn, func(ci ssa.CallInstruction) bool { o := ir.CalleeObj(ci); return o != nil && o.Name() == "DecryptWithCustomScrypt" }) {
+		for _, ci := range ir.Calls(fn, func(ci ssa.CallInstruction) bool {
+			o := ir.CalleeObj(ci)
+			return o != nil && o.Name() == "DecryptWithCustomScrypt"
+		}) {
 			dec, _ = ci.(*ssa.Call)
 		}
 		if dec == nil {
@@ -286,7 +295,10 @@ func runC43(c *core.Ctx) {
 	// ChangePassword
 	if fn := c.Fn(pkAccount, "ClientImpl.ChangePassword"); fn != nil {
 		var dec, enc *ssa.Call
-		for _, ci := range ir.Calls(fn, func(ci ssa.CallInstruction) bool { o := ir.CalleeObj(ci); return o != nil && o.Pkg() != nil && o.Pkg().Path() == keypairPath }) {
+		for _, ci := range ir.Calls(fn, func(ci ssa.CallInstruction) bool {
+			o := ir.CalleeObj(ci)
+			return o != nil && o.Pkg() != nil && o.Pkg().Path() == keypairPath
+		}) {
 			switch ir.CalleeObj(ci).Name() {
 			case "DecryptWithCustomScrypt":
 				dec, _ = ci.(*ssa.Call)
